@@ -400,6 +400,7 @@ func classify(err error) string {
 }
 
 func renderRun(c *Case, r *Run, ctx map[string]interface{}) (o obs) {
+	poolCaller(ctx)
 	st := &spyState{counts: map[string]*int64{}, faultID: c.Cfg.FaultID, faultNth: c.Cfg.FaultNth}
 	o.counts = map[string]int{}
 	defer func() {
@@ -947,7 +948,9 @@ func cmdReplay(args []string) {
 			fmt.Fprintln(os.Stderr, "harness: bad case:", err, short(line))
 			os.Exit(2)
 		}
+		poolCase(c.Key)
 		res, hung := checkCase(&c, limit)
+		poolCaseDone()
 		n++
 		if err := enc.Encode(res); err != nil {
 			os.Exit(2)
@@ -958,6 +961,7 @@ func cmdReplay(args []string) {
 				obsWriter.Flush()
 			}
 			w.Flush()
+			poolTraceClose()
 			os.Exit(3) // a goroutine is stuck in the engine; the orchestrator restarts a worker
 		}
 	}
